@@ -8,8 +8,12 @@ from .common import bump
 ID = "C12"
 AREA = "c12"
 LEAN_PROPS = "Litep2pVerif.Props.C12"
-THEOREMS = ["per_mode_prefix", "at_most_once", "no_gap_within_open_period", "sync_never_blocks",
+THEOREMS = ["per_mode_prefix", "at_most_once", "no_gap_within_open_period", "no_loss_while_open", "sync_never_blocks",
             "oversize_not_delivered"]
+CONSTS = ["BACKPRESSURE_BOUNDARY"]
+CONST_TABLE = [
+    ("BACKPRESSURE_BOUNDARY", "src/substream/mod.rs", r"const BACKPRESSURE_BOUNDARY: usize = ([^;]+);", 65536),
+]
 MANIFEST = {
     "text": "Lean 4 theorems about an executable model of the notification data path (bounded sync/async queues, the "
             "Connection task's poll loop with the slot on the shared inbound channel reserved before reading, FIFO "
